@@ -497,7 +497,8 @@ async fn create_session(State(state): State<AppState>) -> impl IntoResponse {
     request_body = InputPayload,
     responses(
         (status = 202, description = "Input accepted"),
-        (status = 404, description = "Session not found")
+        (status = 404, description = "Session not found"),
+        (status = 409, description = "Session already received its input")
     )
 )]
 async fn send_input(
@@ -513,9 +514,12 @@ async fn send_input(
         }
     };
 
-    state
+    if !state
         .engine
-        .spawn_session(handle, payload.input, None, None);
+        .spawn_session(handle, payload.input, None, None)
+    {
+        return StatusCode::CONFLICT.into_response();
+    }
 
     StatusCode::ACCEPTED.into_response()
 }
